@@ -119,6 +119,7 @@ type Engine struct {
 	bufs      map[*Cell]Value // bytes.Buffer / strings.Builder contents
 	natives   map[string]Value
 
+	noSamples    bool
 	jobVars      []*Term
 	jobVarSet    map[*Term]bool
 	stubOf       map[*ssa.Function]stubFn
@@ -509,7 +510,7 @@ func (e *Engine) Explore(fn *ssa.Function, args []Value) *Result {
 		}
 		switch end.kind {
 		case "ok", "violation":
-			if end.kind == "ok" && e.cfg.ValidateEvery > 0 && (res.Paths-1)%e.cfg.ValidateEvery == 0 && len(res.Samples) < 64 {
+			if end.kind == "ok" && !e.noSamples && e.cfg.ValidateEvery > 0 && (res.Paths-1)%e.cfg.ValidateEvery == 0 && len(res.Samples) < 64 {
 				if m, ok := e.fullModel(); ok {
 					res.Samples = append(res.Samples, PathSample{Model: m, Strs: e.modelStrs(m), Obs: e.evalObs(m),
 						Reached: append([]string(nil), e.reached...), End: end.kind})
@@ -592,3 +593,6 @@ func (e *Engine) SetMaxPaths(n int) {
 	}
 	e.cfg.MaxPaths = n
 }
+
+// SetValidate switches path sampling for native validation on or off for the next Explore.
+func (e *Engine) SetValidate(on bool) { e.noSamples = !on }
